@@ -580,8 +580,22 @@ def r04_12(ctx: Ctx) -> None:
             if tn.kind == "test" and any(x is c for x in ast.walk(tn.ast)):
                 pol = _mismatch_edge(c)
                 if pol is not None:
-                    e = next((s_ for s_ in tn.succ if s_.kind == ("true" if pol else "false")), None)
-                    ok = ok or (e is not None and q.branch_always_raises(hcfg, e))
+                    # the edge of the TEST on which the comparison is known to say 'mismatch' (the test may negate or combine it)
+                    for epol in (True, False):
+                        if any(a_ is c and ap == pol for a_, ap in q.atoms(tn.ast, epol)):
+                            e = next((s_ for s_ in tn.succ if s_.kind == ("true" if epol else "false")), None)
+                            ok = ok or (e is not None and q.branch_always_raises(hcfg, e))
+    # the CRC is taken by READING the packed header: the handle is put back to the start of the packed header before the decoder reads it
+    pre = [c for c in q.calls(h) if attr_tail(c) in ("read_fully", "read") and q.enclosing_loops(h, c) and any(
+        isinstance(x, ast.Call) and attr_tail(x) == "calculate_crc32" for x in ast.walk(q.enclosing_loops(h, c)[-1]))]
+    decs = [c for c in q.calls(h) if attr_tail(c) == "decompress"]
+    backs = [q.node_for(h, c) for c in q.calls(h) if attr_tail(c) == "seek" and c.args and "src_start" in norm(c.args[0])]
+    for pc in pre:
+        for dc in decs:
+            okb = not hcfg.reaches(q.node_for(h, pc), q.node_for(h, dc), avoid=backs)
+            ctx.check(okb, "R04.12", h, pc, "the handle is put back after the packed header was read for its CRC",
+                      "Header._read reads the packed header once to take its CRC and then hands the handle to the decoder without seeking back to the start of the packed header: "
+                      "an archive whose packed header carries a packed-stream CRC cannot be opened (the decoder starts behind its data)", construct="no seek back after header CRC")
     ctx.check(ok, "R04.12", h, h.node, "the packed-stream CRC of an encoded header is compared",
               "Header._read parses the packed-stream CRC of an encoded header (PackInfo kCRC) but never compares it: when that CRC is the only digest of the header stream "
               "(no folder CRC - a legal layout) a flipped bit in the packed header is accepted and members are delivered under wrong names, or not at all, with success",
